@@ -300,6 +300,16 @@ class Stream(object):
         self.n += 1
         return "%s_%s%d" % (self.tag, kind, k)
 
+    def get_state(self):
+        return ("symbolic-stream", self.tag, self.n)
+
+    def set_state(self, state):
+        """become a copy of another symbolic stream at the position it had when get_state() was taken"""
+        if isinstance(state, tuple) and state and state[0] == "symbolic-stream":
+            self.tag, self.n = state[1], state[2]
+        else:
+            raise sym.Abort("set_state with a concrete generator state")
+
     def _shape(self, size, gen):
         if size is None:
             return gen()
